@@ -150,7 +150,7 @@ CHECKS = {
         level_text="The real dmap binary reads generated log lines from a paced pipe so that interim results are written, while a sampler reads the outfile and its .query file every ~0.2 ms. Runs end cleanly, by SIGKILL at a generated instant, or by SIGKILL at the k-th hit of each hooked write step (query file write/rename, outfile open/header/each row/rows done/rename); the kill-point test enumerates every k the fault-free run produced for small results. Every observed state must be: absent, the earlier content, or the complete final result as the reference evaluator predicts it (non-append); a pure extension of the previous state with the header only at the start of an empty file (append); the .query file is never torn and holds the query text whenever the result is visible.",
         level_note="'Killed' = process death (SIGKILL); no power-loss/fsync claim. Kill points are the hooked steps plus random instants; unhooked instants between two write() calls of one row are only sampled.",
         tests=[
-            dict(name="TestC15History", quick=dict(checks=6, shards=12, timeout=900), thorough=dict(checks=60, shards=14, timeout=3400)),
+            dict(name="TestC15History", quick=dict(checks=8, shards=12, timeout=900), thorough=dict(checks=60, shards=14, timeout=3400)),
             dict(name="TestC15KillPoints", quick=dict(timeout=900), thorough=dict(timeout=3400)),
         ]),
     "C06": dict(
